@@ -20,7 +20,7 @@ EXPLANATION = (
     "R-COUNTER-FIRST: in Lower::get/get_at the bit claim is dominated by the successful decrement of the same huge frame's entry. "
     "R-BLIND-WRITES: store/swap/update/fetch_*/non_atomic are only called from the initialisation/recovery/reservation-slot functions. "
     "R-TOGGLE-GUARD: the single-row toggle only sets bits under the `e & mask == 0` guard (and clears under `e & mask == mask`), "
-    "multi-word CASes exchange (expected, !expected)."
+    "multi-word CASes exchange (expected, !expected). R-BALANCE / R-BALANCE-LOWER (shared with C04): the huge-entry counter, which orders >= HUGE_ORDER trust instead of the bits, changes by exactly what each path took or gave back - an inflated counter hands out a huge frame whose frames are still held."
 )
 
 A = "llfree::atomic::Atom::"
@@ -474,3 +474,14 @@ _run1 = run
 def run(rep, programs):  # noqa: F811
     _run1(rep, programs)
     r_return_claimed(rep, programs["core"])
+
+
+_run2 = run
+
+
+def run(rep, programs):  # noqa: F811
+    _run2(rep, programs)
+    # the huge-entry counter is what orders >= HUGE_ORDER trust (counter == 512 => hand out the whole huge frame): it must stay
+    # equal to the number of zero bits, i.e. every path of the lower level gives back exactly what it took (R-BALANCE-LOWER)
+    from props import c04
+    c04.r_balance(rep, programs["core"])
